@@ -62,21 +62,73 @@ def run(ck):
             seqs += [list(t) for t in itertools.product(small, repeat=n)]
         for _ in range(3000):
             seqs.append([rng.choice(kinds) for _ in range(rng.randint(2, 8))])
-    jobs = [{"id": i, "docs": docs, "calls": [{"path": p, "doc": d} for p, d in s]} for i, s in enumerate(seqs)]
+    # step-by-step API: NewFromAST now ("new"), RenderComponentString later ("tree", index of the tree), anything in between
+    for _ in range(300 if ck.quick else 4000):
+        s, built = [], []
+        for _ in range(rng.choice([3, 4, 5, 6])):
+            x = rng.random()
+            if x < 0.35 or not built:
+                d = rng.randrange(len(docs))
+                s.append(("new", d))
+                built.append(d)
+            elif x < 0.7:
+                s.append(("tree", rng.randrange(len(built))))
+            else:
+                s.append(rng.choice(kinds))
+        if built and not any(p == "tree" for p, _ in s):
+            s.append(("tree", rng.randrange(len(built))))
+        seqs.append(s)
+
+    def call(p, d):
+        return {"path": "tree", "tree": d} if p == "tree" else {"path": p, "doc": d}
+    jobs = [{"id": i, "docs": docs, "calls": [call(p, d) for p, d in s]} for i, s in enumerate(seqs)]
     res, dead = common.run_jobs(hb, "paths", jobs)
     for j, s in zip(jobs, seqs):
         r = res.get(j["id"])
         if r is None:
             continue
         ck.count(json.dumps(s), len({d for _, d in s}) >= 2, tags=["len:%d" % len(s)] + ["path:" + p for p, _ in s])
+        built = [d for p, d in s if p == "new"]
         for k, ((p, d), got) in enumerate(zip(s, r["results"])):
+            if p == "new":
+                continue
+            if p == "tree":
+                built_before = [dd for pp, dd in s[:k] if pp == "new"]
+                p, d = "newfromast", built_before[d]
             want = base.get((p, d))
             if want and (got["sha"] != want["sha"] or got["err"] != want["err"]):
-                failing.append(({"documents": [docs[x] for x in sorted({dd for _, dd in s})], "calls": [{"path": pp, "doc": docs[dd][:80]} for pp, dd in s[:k + 1]],
+                failing.append(({"documents": [docs[x] for x in sorted({dd for pp, dd in s if pp != "tree"})], "calls": [{"path": pp, "doc": (docs[dd][:80] if pp != "tree" else "tree %d" % dd)} for pp, dd in s[:k + 1]],
                                  "sequence": s[:k + 1], "docs": docs},
                                 "call %d (%s) returns something else than the same call made first in a fresh process" % (k, p)))
                 break
-    ck.sample({"sequence": [{"path": p, "doc": docs[d][:120]} for p, d in seqs[0]]})
+    # the class-order rewrite itself: the implementation's function (hook) vs the extracted byte-level model
+    mr, msgm = vlib.build_model_runner()
+    texts = []
+    rres, _ = common.run_jobs(hb, "render", [{"id": i, "src": d, "path": "withast"} for i, d in enumerate(docs)])
+    for i in range(len(docs)):
+        h = (rres.get(i) or {}).get("html") or ""
+        if h:
+            texts.append(h)
+    words = ["mj-outlook-group-fix", "mj-column-per-50", "mj-column-px-10", "x", "mj-column-", "zz"]
+    for _ in range(300 if ck.quick else 5000):
+        parts = []
+        for _ in range(rng.randint(1, 5)):
+            cls = " ".join(rng.choice(words) for _ in range(rng.randint(1, 4)))
+            parts.append(rng.choice(['<div class="%s" style="a">', '<td class="%s">', "<p id='q' class=\"%s\">t</p>", 'class="%s', '%s']) % cls)
+        texts.append("".join(parts))
+    cres, _ = common.run_jobs(hb, "classorder", [{"id": i, "in": t} for i, t in enumerate(texts)])
+    mouts = vlib.model_run(mr, [("classorder", t.encode()) for t in texts]) if mr else []
+    nco = 0
+    for i, t in enumerate(texts):
+        got = (cres.get(i) or {}).get("out")
+        if got is None or i >= len(mouts) or mouts[i] is None:
+            continue
+        nco += 1
+        if got.encode("utf-8", "surrogatepass") != mouts[i]:
+            failing.append(({"input": t[:3000], "implementation": got[:600], "model": mouts[i].decode("utf-8", "replace")[:600]},
+                            "normalizeGroupColumnClassOrder differs from its byte-level model Norm.ClassOrder.normalize"))
+    ck.cov["class_order_rewrite_cases"] = nco
+    ck.sample({"sequence": [{"path": p, "doc": docs[d][:120] if p != "tree" else "tree %d" % d} for p, d in seqs[-1]]})
     ck.cov["exhaustive"] = not ck.quick
     ck.cov["rule"] = ("call sequences over 4 public paths x %d documents (4 with pairwise different mj-attributes / mj-class / mj-all / inline style / "
                       "mj-font heads, one without head, one with a group, generated ones): quick 500 random sequences of length 2-4, thorough all "
